@@ -135,6 +135,64 @@ def small_bases(rng, progs, kinds, n=3):
     return out
 
 
+def overshoot_stream(rng, pid, tier):
+    """a long range drained by chunk pulls, then the counter driven more than 2^20 positions past the end by late chunk pulls of
+    two threads, in every order of their accesses (a late pull has one access today; any second one is interleaved)"""
+    n = 1 << 20
+    out = []
+    tails = [[0, 1, 0, 1], [1, 0, 1, 0], [0, 1, 1, 0], [0, 0, 1, 1]]
+    if tier != "quick":
+        tails = [list(t) for t in itertools.product((0, 1), repeat=4)]
+    for i, tl in enumerate(tails):
+        c = Case("%s-ov%d" % (pid, i), "range", start=7, stop=7 + 3 * n, owner="drop")
+        c.threads = [["chunk %d 0" % n] * 4 + ["chunk %d 0" % n, "len", "next", "hasmore"], ["chunk %d 0" % n, "chunk %d 1" % n, "next", "len"]]
+        c.sched = [0] * 4 + tl
+        out.append(c)
+    return out
+
+
+def hintpanic_stream(rng, pid):
+    """a wrapped iterator whose `size_hint` panics once it has produced everything -- if anybody asks at that moment: the crate
+    reads `size_hint` only while constructing the concurrent iterator (`hint=panicend` is an inexact hint otherwise)"""
+    out = []
+    i = 0
+    progs = [[["chunk 2 all", "chunk 2 all", "chunk 2 all"], ["next", "next", "hasmore"]], [["chunk 3 all", "chunk 3 1", "next"], ["bufnew 2", "bufnext all", "bufnext all"]],
+             [["chunk 2 all"] * 3], [["foreach 2"], ["chunk 2 all", "chunk 2 all", "len"]], [["next"] * 5, ["chunk 1 all", "chunk 4 all", "chunk 4 all"]]]
+    for kind in ("iter", "iterref"):
+        for L in (2, 4):
+            for pr in progs:
+                for rep in range(2):
+                    c = make_source(rng, "%s-hp%d" % (pid, i), kind, L, hint="panicend")
+                    c.threads = [list(t) for t in pr]
+                    c.owner = "drop"
+                    if len(pr) > 1:
+                        c.sched = rand_sched(rng, len(pr), 14)
+                    out.append(c)
+                    i += 1
+    return out
+
+
+def rawget_stream(rng, pid):
+    """the public `AtomicIter::get(i)` on a wrapped iterator, for positions already yielded, the next one and (after the end) any:
+    both build profiles are run (the model has no `get` on this kind: implementation-only)"""
+    out = []
+    i = 0
+    for kind in ("iter", "iterref"):
+        for L in (0, 2, 4):
+            for pre in (0, 1, 3):
+                k = min(pre, L)
+                for prog in (["get %d" % j for j in range(0, k + 1)] + ["get %d" % k, "next"],
+                             ["get %d" % k, "get %d" % max(0, k - 1), "chunk 2 all", "get 0"]):
+                    # a position beyond the next one waits for another thread: only asked once the source is drained
+                    tail = ["foreach 1", "get 0", "get %d" % (L + 5)]
+                    c = make_source(rng, "%s-rawget%d" % (pid, i), kind, L, hint=rng.choice(["exact", "inexact", "unbounded"]))
+                    c.threads = [["next"] * pre + prog + tail]
+                    c.tags = {"implonly", "nomodel"}
+                    out.append(c)
+                    i += 1
+    return out
+
+
 # ---------------------------------------------------------------------------------------------------
 # the streams
 
@@ -589,8 +647,9 @@ def inpanic_stream(rng, pid):
     cases = []
     i = 0
     progs = [[["foreach 2"]], [["enumforeach 1"]], [["fold 3"]], [["next", "chunk 2 all", "next"]], [["bufnew 2", "bufnext all", "bufnext all"]],
-             [["foreach 2"], ["next", "next"]], [["next", "next"], ["enumforeach 2"]], [["chunk 2 all"], ["bufnew 2", "bufnext all", "next"]]]
-    for kind in ("iter", "iterref", "vec", "slice"):
+             [["foreach 2"], ["next", "next"]], [["next", "next"], ["enumforeach 2"]], [["chunk 2 all"], ["bufnew 2", "bufnext all", "next"]],
+             [["next", "skip", "next"]], [["skip"], ["next", "hasmore"]]]
+    for kind in ("iter", "iterref", "vec", "slice", "array"):
         for L in (3, 5):
             for pr in progs:
                 for who in ([0], [0, 1]):
@@ -683,7 +742,17 @@ def sanitize(c):
 
 
 def stream_for(pid, tier, seed):
-    return [sanitize(c) for c in stream_for0(pid, tier, seed)]
+    cases = [sanitize(c) for c in stream_for0(pid, tier, seed)]
+    # every third generated case with a skip ends the iteration through the public `AtomicIter::early_exit` instead of
+    # `ConcurrentIter::skip_to_end` (the same operation today); corpus cases are left as written
+    r2 = random.Random(seed * 7919 + 13)
+    for c in cases:
+        if c.has_op("skip") and not c.id.startswith("D") and r2.random() < 0.34:
+            c.rawskip = True
+        # ... and every third case with a clone makes it by `Clone::clone_from` onto an iterator that is ahead of the source
+        if c.has_op("clone") and not c.id.startswith("D") and r2.random() < 0.34:
+            c.clonefrom = True
+    return cases
 
 
 def stream_for0(pid, tier, seed):
@@ -707,7 +776,10 @@ def stream_for0(pid, tier, seed):
             for hint in (["exact", "inexact", "unbounded"] if kind in ("iter", "iterref") else [None]):
                 for L in (0, 1, 3, 4):
                     for how in (["next"] * (L + 1), ["chunk 2 all"] * (L // 2 + 1), ["chunk %d all" % max(1, L)] * 2, ["bufnew 2"] + ["bufnext all"] * (L // 2 + 1),
-                                ["foreach 1"], ["foreach 3"], ["next", "skip", "next"], ["skip", "chunk 2 all"], ["values"]):
+                                ["foreach 1"], ["foreach 3"], ["next", "skip", "next"], ["skip", "chunk 2 all"], ["values"],
+                                # a buffered iterator that has seen the end, kept alive over a skip, then dropped (its drop is an event)
+                                ["bufnew 2"] + ["bufnext all"] * (L // 2 + 2) + ["skip", "bufdrop"],
+                                ["bufnew 3"] + ["bufnext 0"] * (L // 3 + 3) + ["bufdrop"]):
                         for nt in (1, 2):
                             c = make_source(rng, "C05-end%d" % j, kind, L, hint=hint)
                             tail = ["len", "hasmore", "next", "chunk 2 all", "hasmore", "nextv", "len"]
@@ -734,6 +806,7 @@ def stream_for0(pid, tier, seed):
                         t[j] = "next"
             cases.append(c)
         cases += inflight_stream(rng, pid, tier)
+        cases += overshoot_stream(rng, pid, tier)
         return cases
     if pid == "C06":
         cases = defects + pulls_stream(rng, tier, pid, prof=dict(skip=True), n_random=1200 if not big else 50000, exh=False)
@@ -795,6 +868,7 @@ def stream_for0(pid, tier, seed):
                             cases.append(c)
         cases += droppanic_stream(rng, tier, pid) + zst_stream(rng, pid) + closure_panic_stream(rng, pid) + next_then_nth_stream(rng, pid, kinds=("vec", "array", "iter"))
         cases += spare_stream(rng, pid) + probe_panic_ledger_stream(rng, pid) + bigarr_stream(rng, pid)
+        cases += [c for c in inpanic_stream(rng, pid) if c.kind in ("vec", "array", "iter") and "P" not in (c.script or [])]
         return cases
     if pid == "C09":
         cases = defects + pulls_stream(rng, tier, pid, n_random=1000 if not big else 40000, prof=dict(skip=True))
@@ -886,7 +960,7 @@ def stream_for0(pid, tier, seed):
         return [c for c in defects if c.id[0] in "HR" or c.id.startswith("D10")] + boundary_stream(rng, tier) + huge_chunk_stream(rng, pid)
     if pid == "C17":
         return defects + pulls_stream(rng, tier, pid, prof=dict(skip=True), exh=False, n_random=2000 if not big else 80000) + \
-            [c for c in boundary_stream(rng, tier) if c.kind == "range"][::3] + huge_chunk_stream(rng, pid) + spare_stream(rng, pid)
+            [c for c in boundary_stream(rng, tier) if c.kind == "range"][::3] + huge_chunk_stream(rng, pid) + spare_stream(rng, pid) + rawget_stream(rng, pid)
     if pid == "C18":
         cases = defects[:]
         for i in range(1500 if not big else 60000):
@@ -897,7 +971,7 @@ def stream_for0(pid, tier, seed):
                     if op.split()[0] in ("foreach", "enumforeach") and rng.random() < 0.5:
                         t[j] = op + " panic=%d" % rng.randint(0, 4)
             cases.append(c)
-        cases += droppanic_stream(rng, tier, pid) + wrapper_droppanic_stream(rng, pid) + inpanic_stream(rng, pid)
+        cases += droppanic_stream(rng, tier, pid) + wrapper_droppanic_stream(rng, pid) + inpanic_stream(rng, pid) + hintpanic_stream(rng, pid)
         return cases
     if pid == "C19":
         return multi_stream(rng, tier) + [c for c in huge_then_skip_stream(rng, pid, clones=True) if c.kind in ("slice", "range", "vecref") and c.adapt == "none"]
